@@ -227,6 +227,14 @@ func (h CarHeader) Matches(other CarHeader) bool {
 			return false
 		}
 	}
+	// Containment is not enough when a root is repeated: every root of [a, a] is contained
+	// in [a, b]. The lists have the same length, so they hold the same roots exactly when
+	// each root occurs equally often in both.
+	for _, r := range h.Roots {
+		if h.countRoot(r) != other.countRoot(r) {
+			return false
+		}
+	}
 	return true
 }
 
@@ -237,4 +245,14 @@ func (h *CarHeader) containsRoot(root cid.Cid) bool {
 		}
 	}
 	return false
+}
+
+func (h *CarHeader) countRoot(root cid.Cid) int {
+	n := 0
+	for _, r := range h.Roots {
+		if r.Equals(root) {
+			n++
+		}
+	}
+	return n
 }
